@@ -7,7 +7,7 @@ wt = "/tmp/mut/%s%s/wt" % (pid.lower(), tag); out = "/tmp/mut/%s%s/out" % (pid.l
 os.makedirs(out, exist_ok=True)
 if not os.path.exists(wt):
     subprocess.run(["git", "-C", "/repo", "worktree", "add", "-q", "--detach", wt, "HEAD"], check=True)
-t = open('/verif/tools/mutation_prompt_h.txt' if tag>='h' else '/verif/tools/mutation_prompt_g.txt' if tag>='g' else '/verif/tools/mutation_prompt_e.txt' if (tag>='e' and pid!='C17') or tag>='f' else '/verif/tools/mutation_prompt_d.txt' if tag>='d' else '/verif/tools/mutation_prompt.txt').read()
+t = open('/verif/tools/mutation_prompt_i.txt' if tag>='i' else '/verif/tools/mutation_prompt_h.txt' if tag>='h' else '/verif/tools/mutation_prompt_g.txt' if tag>='g' else '/verif/tools/mutation_prompt_e.txt' if (tag>='e' and pid!='C17') or tag>='f' else '/verif/tools/mutation_prompt_d.txt' if tag>='d' else '/verif/tools/mutation_prompt.txt').read()
 t = (t.replace('{WT}', wt).replace('{OUT}', out).replace('{ID}', pid).replace('{TITLE}', p['title']).replace('{STATEMENT}', p['statement'])
      .replace('{QUANT}', p['quantifier']['text']).replace('{FILES}', ', '.join(p['anchors']['files'])).replace('{K}', k))
 open("/tmp/mut/%s%s/prompt.txt" % (pid.lower(), tag), 'w').write(t)
